@@ -155,13 +155,24 @@ fn sexp_of<T: serde::Serialize>(t: &T) -> String {
     s
 }
 
+thread_local! {
+    // where the last panic was raised (file:line of the panicking code), recorded by the panic hook
+    static LAST_PANIC_AT: std::cell::RefCell<String> = std::cell::RefCell::new(String::new());
+}
+
 fn panic_msg(e: Box<dyn std::any::Any + Send>) -> String {
-    if let Some(s) = e.downcast_ref::<&str>() {
+    let at = LAST_PANIC_AT.with(|l| l.borrow().clone());
+    let msg = if let Some(s) = e.downcast_ref::<&str>() {
         s.to_string()
     } else if let Some(s) = e.downcast_ref::<String>() {
         s.clone()
     } else {
         "panic".to_string()
+    };
+    if at.is_empty() {
+        msg
+    } else {
+        format!("{msg} [at {at}]")
     }
 }
 
@@ -327,7 +338,18 @@ fn main() {
         eprintln!("usage: harness <cases.jsonl> <out.jsonl>");
         std::process::exit(2);
     }
-    std::panic::set_hook(Box::new(|_| {}));
+    std::panic::set_hook(Box::new(|info| {
+        let at = info
+            .location()
+            .map(|l| {
+                // registry paths are long: keep crate directory and file
+                let f = l.file();
+                let short = f.rsplitn(4, '/').collect::<Vec<_>>().into_iter().rev().collect::<Vec<_>>().join("/");
+                format!("{}:{}", short, l.line())
+            })
+            .unwrap_or_default();
+        LAST_PANIC_AT.with(|l| *l.borrow_mut() = at);
+    }));
     let input = std::io::BufReader::new(std::fs::File::open(&args[1]).expect("open input"));
     let mut output = BufWriter::new(std::fs::File::create(&args[2]).expect("create output"));
     for line in input.lines() {
